@@ -28,13 +28,18 @@ def tie(ctx):
 
 def gen(rng):
     r = rng.random()
-    if r < 0.8:
+    if r < 0.75:
         return netgen.gen_hydraulic(rng)
     if r < 0.9:
-        s = netgen.gen_heat_loop(rng)
+        s = netgen.gen_heat_loop(rng, makeup=bool(rng.random() < 0.6))
         s["options"]["mode"] = "hydraulics"
         return s
-    return netgen.gen_heat_tree(rng)
+    s = netgen.gen_heat_tree(rng)
+    if rng.random() < 0.6:
+        # a short transient sequence (what run_timeseries(..., transient=True) issues): the internal tables are re-used from
+        # step to step while the loads change
+        s["c01_transient"] = [float(x) for x in rng.uniform(0.6, 1.4, int(rng.integers(2, 5)))]
+    return s
 
 
 def check_net(net, spec):
@@ -93,8 +98,36 @@ def check_net(net, spec):
     return fails
 
 
+def transient_sequence(spec):
+    import pandapipes as pp
+    net = netgen.build(spec)
+    base = net.sink.mdot_kg_per_s.values.copy() if len(net.sink) else None
+    fails = []
+    opts = {k: v for k, v in spec["options"].items()}
+    for step, f in enumerate(spec["c01_transient"]):
+        if base is not None:
+            net.sink["mdot_kg_per_s"] = base * f
+        try:
+            pp.pipeflow(net, **dict(opts, mode="sequential", transient=True, dt=60.0, simulation_time_step=step))
+        except Exception as e:
+            return None, type(e).__name__
+        for fl in check_net(net, spec):
+            fl["fingerprint"] += ":transient-step"
+            fl.setdefault("detail", {})["step"] = step
+            fails.append(fl)
+        if fails:
+            break
+    return fails, None
+
+
 def oracle(spec):
     from pandapipes.pf.pipeflow_setup import PipeflowNotConverged
+    if spec.get("c01_transient"):
+        fails, err = transient_sequence(spec)
+        if err is not None:
+            return {"status": "skip:transient:" + err}
+        return {"status": "ok", "failures": fails, "hash": netgen.structure_hash(spec) + "T%d" % len(spec["c01_transient"]),
+                "nontrivial": True, "tags": ["liquid", "transient"], "sample": dict(netgen.summarize(spec), transient_steps=len(spec["c01_transient"]))}
     net, e = netgen.try_run(spec)
     if e is not None:
         return {"status": "skip:" + type(e).__name__}
